@@ -6,7 +6,7 @@
     store outside a staging buffer (no [Crash]) and termination (no [OutOfFuel]). *)
 From Qv Require Import Common.Bytes Gen.GenQrdata Model.Mime Model.QrData Spec.SmtpDataSpec
   Proofs.QrNeedRecodeProofs Proofs.QrPlainSpecProofs Proofs.QrQpDecodeProofs Proofs.QrQpLegalProofs Proofs.QrQpTopProofs Proofs.QrWrapLineProofs Proofs.QrPartDecisionProofs
-  Proofs.MimeTotalProofs Proofs.QrHeaderTotalProofs Proofs.QrSendQpTotalProofs.
+  Proofs.MimeTotalProofs Proofs.QrHeaderTotalProofs Proofs.QrSendQpTotalProofs Proofs.QrLegalProofs.
 
 (** need_recode() decides exactly what the property needs: the message goes the recoding way iff it has
     an octet that is NUL or above 127 while 8BITMIME was not announced, or a line of more than 998 octets
@@ -65,6 +65,30 @@ Proof.
   apply plain_data_legal. exact H.
 Qed.
 Print Assumptions C06_plain.
+
+(** "Everything Qremote writes between the 354 and the final reply is legal SMTP data", on whichever
+    path: for every message made of octets in which is_multipart() accepts no header field (that is: no
+    multipart walk; the message may be of any other shape, with any line ends, 8-bit octets, over-long
+    header and body lines, with or without Content-Transfer-Encoding field, header only, body only), every
+    HELO name that is a legal host name for the generated field, and either 8BITMIME setting.
+    send_data returns, and either the transfer is completed and the octets written are legal data followed
+    by the terminating dot line — on the recoding path that is: the header lines folded by wrap_header
+    / wrap_line, the replaced or added Content-Transfer-Encoding field, the line of recodeheader(), and the
+    body as quoted-printable or as it is — or the transfer was given up before the first octet
+    (8-bit octets in a header, a broken Content-Type).
+    PARTIAL: the hypothesis on is_multipart excludes the multipart walk of send_qp (boundary lines,
+    preamble, parts, epilogue); what is missing for it is listed in reports/C06.md. *)
+Theorem C06_legal_partial : forall (m helo : bytes) (ext8 : bool),
+  line_clean helo /\ seven_bit helo /\ length helo <= 255 ->
+  Forall (fun c => (c < 256)%N) m ->
+  (forall ls ll bs bl, is_multipart m ls ll <> Ok (MpYes bs bl)) ->
+  exists fl q r, send_data m helo ext8 = Ok (fl, q, r) /\
+    match r with
+    | Done _ st => exists d, concat (rev (out st)) = d ++ TERMINATOR /\ legal_data ext8 d
+    | Die _ st => concat (rev (out st)) = []
+    end.
+Proof. exact send_data_legal_partial. Qed.
+Print Assumptions C06_legal_partial.
 
 (** recode_qp(), the quoted-printable recoder, on any window (body or MIME part) of any message made of
     octets: it terminates, reads nothing outside the window, stays inside sendbuf[1280], and what it
